@@ -81,7 +81,7 @@ impl Prop for C06 {
     fn budget(tier: Tier) -> Budget {
         match tier {
             Tier::Quick => Budget { cases: 60000, shards: 16 },
-            Tier::Thorough => Budget { cases: 480000, shards: 16 },
+            Tier::Thorough => Budget { cases: 5760000, shards: 16 },
         }
     }
 
